@@ -5,7 +5,10 @@
 (* api.DataHandler (`calls`: handler method, replication marker, stamp      *)
 (* classification, surviving list members as indices into the source list,  *)
 (* the operation type sent - grant / revoke -, one equality bit per         *)
-(* identity field group; under a name mapping the name groups are judged    *)
+(* identity field group; `prelude`: the drops handled by the same writer     *)
+(* before the op - dropped members / parent when via = "event", the sibling  *)
+(* drop(s) when sib # "none" -, each with its result and request count;      *)
+(* under a name mapping the name groups are judged                           *)
 (* against the image of the source names, see WriterReq.tla) and the         *)
 (* returned error bit.                                                       *)
 (* The acceptor binds cur / res from the log and requires the contract of   *)
@@ -40,6 +43,18 @@ MsgOK(m) == /\ m.shape \in {"one"} \cup Malformed
             /\ MapOf(m) \in {"none", "cover", "other"}
             /\ OpTypeOf(m) \in {"na", "grant", "revoke"}
             /\ (m.shape = "one" /\ m.kind \in OpTypeKinds /\ "optype" \in DOMAIN m => m.optype # "na")
+            /\ SibOf(m) \in {"none", "db", "coll", "member"} /\ ViaOf(m) \in {"seed", "event"}
+            /\ RelOf(m) \in (IF SibOf(m) = "none" THEN {"na"} ELSE {"pre", "ext"})
+            /\ (SibOf(m) # "none" => m.shape = "one" /\ SibOf(m) \in SibLevels(m.kind))
+
+\* The prelude of a step (via = "event", sib # "none"): drops of the dropped members / the dropped parent and of the sibling(s),
+\* handled by the same writer before the op.  Each is a drop-collection / drop-partition event or a drop-database message for
+\* an object that is alive and unrelated to every earlier drop - nothing allows to skip it: it is applied (C08), as exactly
+\* one request (C20: n = requests other than probes), without error.
+PreludeOK(e) ==
+    "prelude" \notin DOMAIN e \/
+    \A i \in 1..Len(e.prelude) : /\ e.prelude[i].ok
+                                 /\ IF Prop = "C08" THEN e.prelude[i].n >= 1 ELSE e.prelude[i].n = 1
 
 TInit == Init /\ tr \in 1..Len(Traces) /\ l = 1
 
@@ -49,6 +64,7 @@ TStep ==
            m == e.m
            r == [calls |-> e.calls, err |-> e.err] IN
        /\ MsgOK(m)
+       /\ PreludeOK(e)
        /\ cur' = m /\ res' = r
        /\ \/ Prop = "C08" /\ C08Contract(m, r)
           \/ Prop # "C08" /\ Contract(m, r, FALSE)
